@@ -50,6 +50,35 @@ var numLit = map[string]string{
 	"p2_64": "18446744073709551616", "f1_5": "1.5", "f1_0": "1.0", "e1e2": "1e2", "f1e39": "1e39", "big": "1e400",
 }
 
+// exact boundaries of every integer width (spec: Bind!BoundLits)
+func init() {
+	for k, v := range map[string]string{
+		"imax16":  "32767",
+		"imax32":  "2147483647",
+		"imax64":  "9223372036854775807",
+		"imax8":   "127",
+		"imaxp16": "32768",
+		"imaxp32": "2147483648",
+		"imaxp8":  "128",
+		"imin16":  "-32768",
+		"imin32":  "-2147483648",
+		"imin8":   "-128",
+		"iminm16": "-32769",
+		"iminm32": "-2147483649",
+		"iminm64": "-9223372036854775809",
+		"iminm8":  "-129",
+		"umax16":  "65535",
+		"umax32":  "4294967295",
+		"umax64":  "18446744073709551615",
+		"umax8":   "255",
+		"umaxp16": "65536",
+		"umaxp32": "4294967296",
+		"umaxp8":  "256",
+	} {
+		numLit[k] = v
+	}
+}
+
 // string classes: JSON literal and the Go string it denotes
 var strLit = map[string][2]string{
 	"sx": {`"x"`, "x"}, "se": {`""`, ""}, "s12": {`"12"`, "12"}, "sb64": {`"YWI="`, "YWI="}, "sb1": {`"YQ=="`, "YQ=="}, "sb3": {`"YWJj"`, "YWJj"},
